@@ -51,6 +51,9 @@ BOUNDS_EXC = {
         "(offset, len) was computed in extract_key from a value slice that lies inside block.bytes"),
     ("sst::block::Block::restart_point", "index"): (1, _BLOCK_CRC +
         "restarts_idx + 4 * restart_idx + i with restart_idx < num_restarts (asserted; callers checked by C09.5) addresses the restart table"),
+    ("sst::block::Block::restart_point", "range"): (1, _BLOCK_CRC +
+        "the same four bytes taken as one slice: bytes[restarts_idx + 4 * restart_idx ..][..4] with restart_idx < num_restarts (asserted; callers "
+        "checked by C09.5) is an entry of the restart table"),
     ("sst::block::BlockCursor::extract_key", "range"): (1, _BLOCK_CRC +
         "restarts_boundary = len - capstone - footer is within the block (Block::new)"),
     ("sst::log::LogIterator::next_frame", "range"): (1,
